@@ -19,9 +19,19 @@ def copy_corpus(root):
     jobs += copy_suite(root)
     jf = os.path.join(cdir, "jobs.json")
     if os.path.exists(jf):
+        kf = {}
+        kp = os.path.join(build.VERIF, "known_findings.json")
+        if os.path.exists(kp):
+            for f in json.load(open(kp)).get("findings", []):
+                w = f["witness"]
+                kf.setdefault((w["dir"], tuple(w["args"]), w.get("pkg", "")), {})[f["property"]] = {
+                    "signature": f["signature"], "what": f["what"], "id": f["id"]}
         for j in json.load(open(jf)):
             j = dict(j)
             j["corpus"] = True
+            e = kf.get((j["dir"], tuple(j["args"]), j.get("pkg", "")))
+            if e:
+                j["expect"] = e
             jobs.append(j)
     return jobs
 
